@@ -40,6 +40,18 @@ def make_cases(rng, tier):
     return cases
 
 
+def overlapping(rng, tier):
+    """runs that overlap in time on one cache path: A up, cache deleted, B up, probes; more runs, more deletions"""
+    cases = []
+    for rep in range(4 if tier == "quick" else 40):
+        ops = [{"op": "listen"}, {"op": "probe"}]
+        for _ in range(rng.randrange(1, 4)):
+            ops += rng.choice([[{"op": "delete"}, {"op": "listen"}], [{"op": "listen"}], [{"op": "delete"}], [{"op": "start"}]])
+            ops.append({"op": "probe"})
+        cases.append({"depth": rng.randrange(0, 3), "ops": ops})
+    return cases
+
+
 def terms(case, res):
     out, ins = [], []
     orig, flen, present = None, res.get("filelen", 0), False
@@ -127,6 +139,26 @@ def check(run):
                "starts of the real GetCertificate on: no file, complete file, the file cut at EVERY byte length 0..len-1 (exhaustive crash points of the first "
                "write), single-byte flips/deletions/insertions/case changes anywhere (comment, markers, certificate and key PEM), after deletion, without "
                "cache; umask 022; tag = kind*10+outcome; non-trivial = everything but 'complete file served unchanged'", [alli[1], alli[-1]], {"kind_outcome_tags": dist})
+    oc = overlapping(run.rng, run.tier)
+    for k, c in enumerate(oc):
+        c["i"] = k
+    ores, oerr = vlib.run_drv(drv, "cert", oc, args=[os.path.join(run.rundir, "certup")], timeout=300)
+    if oerr or not ores or len(ores) != len(oc):
+        run.oblige("cert driver ran the overlapping runs", False, str(oerr))
+    else:
+        pins, pouts = [], []
+        for c, r in zip(oc, ores):
+            for op, st in zip(c["ops"], r.get("steps") or []):
+                if op["op"] == "probe":
+                    pins.append({"case": c["i"], "ops_so_far": [o["op"] for o in c["ops"][:c["ops"].index(op) + 1]]})
+                    pouts.append({"started": st.get("started") or [], "served": st.get("served") or []})
+        vlib.judge_stream(run, "overlapping", IMPORTS, "lcase", pins, pouts,
+                          lambda i, r: "mkl [%s] [%s]" % ("; ".join(vlib.coq_str(x.encode()) for x in r["started"]), "; ".join(vlib.coq_str(x.encode()) for x in r["served"])),
+                          {7: "a run that was still up presented another key pair than the one it started with (and advertised) after the cache file had "
+                              "been deleted / re-created by another run"}, (0,),
+                          "runs that overlap in time on one cache path (real sstls.Listen listeners, real handshakes): A up, cache deleted, B up, more runs "
+                          "and deletions; at every probe each run that is still up must present the key it presented when it started",
+                          judge="judge_up", key_fn=lambda i: json.dumps(i))
     run.assumptions += ["os.WriteFile leaves a prefix on a crash (torn files are constructed, the process is not killed mid-write)",
                         "txtar / PEM / X509KeyPair parsing is the libraries'; the hypothesis load_ok about them is checked by the enumeration above, not proved",
                         "permission bits observed under umask 022"]
